@@ -123,13 +123,16 @@ def run(ctx):
     ctx.ob(len(ws) == 1, 'one site stores stop options', 'stop-store', loc=hio.loc())
     for (i, s, pe, rve) in ws:
         ok = guarded_any(hio, i, [r'is_connection_established\(ProtocolState::state\(self\.protocol_state\)\)$', r'^\(ProtocolState::state\(self\.protocol_state\) == ProtocolStateType::Connected\{\}\)$',
-                                  r'^Option::is_none\(.*\.disconnect\)$', r'\.disconnect is None$'])
+                                  r'^.*\.disconnect is None$', r'\.disconnect is None$'])
         # alternative repair shape: the stored options have their disconnect cleared on the not-connected path
         if not ok:
             clears = [(j, s2) for (j, s2, pe2, rve2) in hio.field_writes() if show(pe2).endswith('.disconnect') and show(rve2) == 'Option::None{}']
             ok = any(guarded_any(hio, j, [r'^!.*is_connection_established\(', r'^!\(ProtocolState::state\(self\.protocol_state\) == ProtocolStateType::Connected']) for j, _ in clears)
         ctx.ob(ok, 'stop options with a DISCONNECT are kept only if the engine is Connected (otherwise the DISCONNECT is failed by the offline policy and nothing ends the wait)',
                'stop-store|producer', loc=hio.loc(i), detail=None if ok else 'guards at the store: ' + ' ; '.join(guard_strs(hio, i)))
+    ice = ctx.fn('protocol::is_connection_established')
+    rvs_ = [show(e) for b, e in prims.ret_variants(ice)]
+    ctx.ob(rvs_ in (['(state == ProtocolStateType::Connected{})'], ['PartialEq::eq(state, ProtocolStateType::Connected{})']), 'is_connection_established(state) is exactly state == Connected (%s)' % rvs_, 'stop-store|predicate', loc=ice.loc())
     sub = [c for c in hio.calls('ProtocolState::handle_user_event') if any(g.endswith('.disconnect is Some') or 'disconnect' in g for g in guard_strs(hio, c.bb))]
     ctx.ob(len(sub) == 1, 'the Stop arm submits the DISCONNECT to the engine', 'stop-submit', loc=hio.loc())
 
@@ -177,7 +180,7 @@ def run(ctx):
                 continue
             nloop += 1
             falses = [b for b, e in var_inits(v, 'done') if show(e) == 'False' and guard_strs(v, b)]
-            okl = bool(falses) and all(guarded_any(v, b, [r'^Result::is_ok\(MqttClientImpl::transition_to_state\(']) and guarded_any(v, b, [r'^!\(.* == ClientImplState::Shutdown\{\}\)$', r' != ClientImplState::Shutdown']) for b in falses)
+            okl = bool(falses) and all(guarded_any(v, b, [r'^MqttClientImpl::transition_to_state\(.* is Ok$']) and guarded_any(v, b, [r'^!\(.* == ClientImplState::Shutdown\{\}\)$', r' != ClientImplState::Shutdown']) for b in falses)
             ctx.ob(okl, '%s keeps looping exactly when the transition succeeded and did not reach Shutdown' % short(p, 3), 'loop|done|' + short(p, 4), loc=v.loc())
     if ctx.config == 'all':
         ctx.floor(nloop, 2, 'client event loops')
